@@ -41,6 +41,9 @@ func protocolMore(t *testing.T, bind *Binding, job *Job, p *sdl.Program, acc *st
 		}
 		for k := 0; k < job.K; k++ {
 			s := SpecData{Parallel: true, Close: true, ForceOrd: -1, Sched: "parallel", Seed: mix(mix(job.Seed, p.Seed), uint64(k))}
+			// every other pair of runs: nothing parks at all (races between a loop that starts
+			// goroutines and those goroutines)
+			s.Free = k%4 >= 2
 			if k%2 == 0 {
 				// several scanner invocations fail in the same round
 				for _, sc := range p.Scanners {
@@ -102,10 +105,23 @@ func protocolMore(t *testing.T, bind *Binding, job *Job, p *sdl.Program, acc *st
 			if i > 2 || !o.OK() {
 				continue
 			}
-			// every runner in turn fails (exhaustive per explored schedule)
+			// every runner in turn fails (exhaustive per explored schedule); so does the
+			// initialization of every runner (a runner that cannot be created must not silently
+			// drop out of the sequence)
+			isRunner := map[string]bool{}
+			for _, inst := range p.Instances {
+				if p.TypeByName(inst.Type).Role == "runner" {
+					isRunner[inst.ID] = true
+				}
+			}
 			for _, site := range o.Sites {
 				if strings.HasPrefix(site, "run:") {
 					do(faultSpec(s, o, site))
+				}
+				if kind, rest, ok := strings.Cut(site, ":"); ok && (kind == "init" || kind == "aps") {
+					if subj, _, _ := strings.Cut(rest, "#"); isRunner[subj] {
+						do(faultSpec(s, o, site))
+					}
 				}
 			}
 		}
